@@ -11,7 +11,8 @@ Part 1: `hfile.c` / `hfiledd.c` allocation: `HPgetdiskblock`, `HTInew_dd_block`,
         `Cfg.fixA` = range check in `HPgetdiskblock` (commit bffe1fd), `Cfg.fixB` = range check in `Hwrite`
         (commit 905f433).  HEAD is `fixA = fixB = true`; the `false` variants are the code before those commits
         and are kept to exhibit the defects (F11).
-Part 2: reference numbers (`Hnewref`, `Htagnewref`).
+Part 2: reference numbers (`Hnewref`, `Htagnewref`); the reference-number state of a file across `maxref = 65535`
+        (`RefSt`: explicit numbers, deletions, object creation through `Hnewref`, exhaustion).
 Part 3: Vdata field limits (`VSfdefine`, `VSsetfields`), Vgroup member limit (cited from C08).
 Part 4: name-length rules of the nine name-taking entry points.
 Part 5: `SDcreate` rank and the SD open-file table (`NC_open`, `ncclose`, `NC_reset_maxopenfiles`). -/
@@ -246,6 +247,75 @@ def newref (maxref : Nat) (usedAnyTag : Nat → Bool) : Nat × Nat :=
   if maxref < MAX_REF then (maxref + 1, maxref + 1)
   else ((firstFree usedAnyTag 1).getD 0, maxref)
 
+/-- `Hopen(path, DFACC_CREATE, ndds)` / `HTPinit`: the number of descriptors per DD block (`int16`): negative is refused,
+    0 is the default, anything below `MIN_NDDS` is raised to it -/
+def nddsEff (req : Int) : Option Nat :=
+  if req < 0 then none
+  else if req = 0 then some DEF_NDDS
+  else if req < (MIN_NDDS : Nat) then some MIN_NDDS
+  else some req.toNat
+
+/-! ### the reference-number state of an open file, across the limit
+
+`Hnewref` is one half of every "create a new object" entry point (`VSattach(-1,"w")`, `Vattach(-1,"w")`, `GRcreate`,
+`SDcreate`, DFR8/DFSD ...): the number it hands out becomes the reference number of the descriptors the object is
+made of.  The state below is what decides its answer: `file_rec->maxref` and the reference numbers of the descriptors
+in use (any tag).  The ORDER of the descriptors in the DD list is deliberately not part of it. -/
+
+/-- `maxref` and the descriptors in use: one entry `(lo, hi)` stands for one descriptor for every reference number
+    `lo .. hi` (a single descriptor is `(r, r)`; two tags with the same number are two entries) -/
+structure RefSt where
+  maxref : Nat
+  used : List (Nat × Nat)
+deriving Repr, DecidableEq, Inhabited
+
+/-- some descriptor (of any tag) carries the reference number `r`: `HTIfind_dd(DFTAG_WILDCARD, r)` succeeds -/
+def RefSt.inUse (s : RefSt) (r : Nat) : Bool := s.used.any (fun p => decide (p.1 ≤ r) && decide (r ≤ p.2))
+
+/-- descriptors with the explicit reference numbers `lo .. hi` are created
+    (`HTPcreate`: `if (ref > file_rec->maxref) file_rec->maxref = ref`) -/
+def refPut (s : RefSt) (lo hi : Nat) : RefSt :=
+  { maxref := if hi > s.maxref then hi else s.maxref, used := s.used ++ [(lo, hi)] }
+
+/-- `n` descriptors with the same reference number `r` (an object made of several tags, e.g. DFTAG_VH + DFTAG_VS) -/
+def refPutN (s : RefSt) (r : Nat) : Nat → RefSt
+  | 0 => s
+  | n + 1 => refPutN (refPut s r r) r n
+
+/-- one descriptor with the reference number `r` leaves the list -/
+def delRun : List (Nat × Nat) → Nat → List (Nat × Nat)
+  | [], _ => []
+  | (lo, hi) :: rest, r =>
+    if lo ≤ r ∧ r ≤ hi then
+      (if lo < r then [(lo, r - 1)] else []) ++ (if r < hi then [(r + 1, hi)] else []) ++ rest
+    else (lo, hi) :: delRun rest r
+
+/-- `Hdeldd` / `HTPdelete` of one descriptor with the reference number `r`: `maxref` is NOT lowered -/
+def refDel (s : RefSt) (r : Nat) : RefSt := { s with used := delRun s.used r }
+
+/-- `Hnewref` followed by the creation of `n` descriptors with the number handed out (`n = 0`: nothing is written yet,
+    e.g. `Vattach(-1,"w")` before `Vdetach`).  Answer 0 (`DFREF_NONE`): no number is free; the caller fails and nothing
+    is created. -/
+def refAlloc (s : RefSt) (n : Nat) : Nat × RefSt :=
+  let x := newref s.maxref s.inUse
+  if x.1 = 0 then (0, s) else (x.1, refPutN { s with maxref := x.2 } x.1 n)
+
+inductive RefOp where
+  | put (lo hi : Nat)
+  | del (r : Nat)
+  | alloc (n : Nat)
+deriving Repr, DecidableEq
+
+/-- one operation; the answer of `alloc`, 0 for the others -/
+def refStep (s : RefSt) : RefOp → Nat × RefSt
+  | .put lo hi => (0, refPut s lo hi)
+  | .del r => (0, refDel s r)
+  | .alloc n => refAlloc s n
+
+def refRun (s : RefSt) : List RefOp → List Nat × RefSt
+  | [] => ([], s)
+  | o :: os => let x := refStep s o; let y := refRun x.2 os; (x.1 :: y.1, y.2)
+
 /-! ## Part 3: Vdata field limits -/
 
 /-- `VSfdefine(vs, field, type, order)` as far as sizes go: `isize = DFKNTsize(type)` (`none` = FAIL) -/
@@ -321,6 +391,18 @@ def nameReopened : NameApi → Name → Option Name
 
 /-- `SDcreate`: `rank > H4_MAX_VAR_DIMS` is refused -/
 def sdrankOk (rank : Nat) : Bool := !decide (rank > H4_MAX_VAR_DIMS)
+
+/-- `SDcreate`: `handle->vars->count >= H4_MAX_NC_VARS` is refused: a file holds at most 5000 data sets -/
+def sdvarOk (count : Nat) : Bool := decide (count < H4_MAX_NC_VARS)
+
+/-- `SDsetattr` with a name that is not yet in the list: `(*ap)->count >= H4_MAX_NC_ATTRS` is refused
+    (one list per file and one per data set) -/
+def sdattrOk (count : Nat) : Bool := decide (count < H4_MAX_NC_ATTRS)
+
+/-- `n` requests one after the other (`ok` = the accept rule): how many entries the list has afterwards -/
+def countRun (ok : Nat → Bool) (count : Nat) : Nat → Nat
+  | 0 => count
+  | n + 1 => countRun ok (if ok count then count + 1 else count) n
 
 /-- `_cdfs`, `_cdfs_size` (= slots.length, 0 when the list is not allocated), `_ncdf`, `_curr_opened`, `max_NC_open` -/
 structure Tab where
